@@ -308,7 +308,7 @@ def universe(draw, m: SidModel, types: Optional[List[str]] = None, min_size: int
             ents.append((t, f))
     # sometimes: a sibling whose free value EXTENDS another entity's value by a separator and a token
     # (names like 'x' and 'x_y' are ambiguous wherever fields are joined by that separator, e.g. in file names)
-    if names is None and ents and draw(st.integers(0, 3)) == 0:
+    if ents and draw(st.integers(0, 3)) == 0:
         for t, f in list(ents)[:4]:
             fk = [k for k in m.keys(t) if m.specs[(t, k)].free]
             if fk:
